@@ -175,6 +175,8 @@ func TestC02(t *testing.T) {
 		return m
 	}
 	idx := 0
+	gate := newReplayGate(r, "C02", w.Root, w.Dir, false, 101, 7)
+	defer gate.Stop()
 	run := func(o c02Obj, reqs []Req) {
 		idx++
 		if !r.Mine(idx) {
@@ -188,6 +190,7 @@ func TestC02(t *testing.T) {
 		}
 		m := mkModel()
 		res := runSession(t, SrvOpts{Root: w.Root}, m, reqs, Delivery{})
+		gate.maybe(mkModel(), reqs, res, o.path, nil)
 		r.Transition(int64(len(res.Steps)))
 		r.Eval(1)
 		key := o.path + "|" + strings.Join(reqStrings(reqs), ",")
